@@ -15,6 +15,7 @@ def check(ctx, recs):
         g = r.game
         final, reachs, rew = r.out[0], r.out[1], r.out[2]
         pr = r.pruned
+        exp_rows = sc.expected_rows(r)
         for i in range(len(final)):
             k = g["players"][i]
             if k == PR:
@@ -28,9 +29,10 @@ def check(ctx, recs):
                 ctx.violation("state %d: final strategy %r is not within the reachability strategy %r" % (i, final[i], reachs[i]), r.inp())
             if pr is None:
                 continue
-            # the actions still permitted: for Player 1 the ones kept by conditioning; Player 2 keeps EVERY action of the
-            # description (unless the whole state was dropped as unreachable), whatever the solver's own list says
-            row = pr[i] if (k == P1 or pr[i] == []) else [tuple(t) for t in g["transition_list"][i]]
+            # the actions still permitted, computed from the description and the reported values (not from the solver's own
+            # lists): Player 1 - reachability-optimal actions whose successor is alive; Player 2 - every action of the
+            # description (unless the whole state was dropped as unreachable)
+            row = pr[i] if pr[i] == [] and k != P1 else exp_rows[i]
             vals = [round(rew[d], 6) for _, d in row]
             if k == P1:
                 best = max([0] + vals)
@@ -84,12 +86,14 @@ def run(ctx):
             extra.append((g2, dict(m, style="stopping", guard="any")))
     games += extra
     games += reward_tie_grids(ctx)
+    games += gen_games.pattern_games3(2 if ctx.quick else 3)      # successors that are barely alive (1e-7): they stay permitted
     games += gen_games.extra_families(ctx.rng, games, 12 if ctx.quick else 150)
     recs = sc.run_games(ctx, games, limit=10, tag="c05")
     sc.correspondence(ctx, recs, "cmp_final", "c05")
     sc.padding_check(ctx, recs, ("final",), 40 if ctx.quick else 400, "c05")
     sc.loglevel_check(ctx, recs, ("final",), 25 if ctx.quick else 250, "c05")
     sc.resolve_check(ctx, recs, ("final",), 30 if ctx.quick else 300, "c05")
+    sc.late_edit_check(ctx, recs, ("final",), 20 if ctx.quick else 200, "c05")
     check(ctx, recs)
 
 
